@@ -56,7 +56,9 @@ static const EllSpec ELLS[] = {
   {WA, 0.5, true, false},
   // second thorough ring: the AuxLatitude 'full accuracy' limit |f| = 1/150 at WGS84 size, and extreme exact-only shapes
   {WA, 1 / 150.0, false, false}, {WA, -1 / 150.0, false, false}, {WA, 0.3, true, false}, {WA, -0.3, true, false},
-  {WA, 0.75, true, false}, {WA, -1.0, true, false}, {1e-3, 0.05, true, false},
+  {WA, 0.6, true, false}, {WA, -1.0, true, false}, {1e-3, 0.05, true, false},
+  {WA, 0.4, true, false}, {WA, -0.4, true, false}, {WA, -0.75, true, false}, {WA, 0.005, false, false}, {WA, -0.005, false, false},
+  {6371000, 0, false, false}, {WA, 0.15, true, false},
 };
 static const int NELL = sizeof(ELLS) / sizeof(ELLS[0]);
 
@@ -112,7 +114,8 @@ int main(int argc, char** argv) {
     LATS.push_back(30 + ulp30); LATS.push_back(30 + 1e-12); LATS.push_back(30 + 1e-3);
     for (double b : {-45.0, 60.0, 89.9}) for (double d : {4e-14, 1e-12, 1e-9, 1e-6, 1e-3}) LATS.push_back(b + d);
     for (double d : {5e-324, 1e-15, 1e-12, 1e-6}) LATS.push_back(d);
-    for (double x : {-1e-9, -30.0, 60.0, 89.0, 89.9, -60.0, 1e-3, 5.0, 30 + ulp30, 60 + 1e-12}) LATS_D.push_back(x);
+    for (double x : {-5.0, 15.0, 75.0, -75.0, 85.0, 0.1, -0.1, 89.99, -89.99, 45 + 1e-9}) LATS.push_back(x);
+    LATS_D.assign(LATS.begin(), LATS.begin() + 34);      // the quick ones, the coarse thorough ring and the first near-equal families
   }
   std::vector<double> LON12 = {0, 1e-9, 1, 90, 179.999, 180, -180, 181};
   if (T) for (double x : {-1e-9, -90.0, 359.0, -179.999}) LON12.push_back(x);
@@ -121,19 +124,20 @@ int main(int argc, char** argv) {
   std::vector<double> AZIS = {0, 1e-10, 45, 90 - 1e-10, 90, 90 + 1e-10, 180, 270};
   if (T) for (double x : {-135.0, 89.0, 179.9999999999, 450.0,
                           // nearly meridional and nearly east-west, both sides, several closenesses
-                          -1e-10, 1e-5, 180 + 1e-10, 90 - 1e-13, 90 + 1e-13, 90 - 1e-6, 90 + 1e-6, 89.999, 91.0, 270 - 1e-10, -90 + 1e-10, 1.0}) AZIS.push_back(x);
+                          -1e-10, 1e-5, 180 + 1e-10, 90 - 1e-13, 90 + 1e-13, 90 - 1e-6, 90 + 1e-6, 89.999, 91.0, 270 - 1e-10, -90 + 1e-10, 1.0,
+                          30.0, 60.0, 120.0, 150.0, 210.0, 300.0, 89.9999999, 0.001}) AZIS.push_back(x);
   std::vector<double> S12S = {0, 1, -1, 1e6, -1e6, 1e7, -1e7, 3e7, -3e7};
-  if (T) for (double x : {1e-3, 5e6, -5e6, 2.5e7}) S12S.push_back(x);
+  if (T) for (double x : {1e-3, 5e6, -5e6, 2.5e7, 10.0, -10.0, 1e3, -1e3, 1e5, 2e7, -2e7, 1.5e7}) S12S.push_back(x);
   std::vector<double> DLON1 = {0, 150.75};
   if (T) DLON1.push_back(-190);
 
-  ctx.bound("ellipsoids", T ? "a=6378137 x f in {0,+-1/298.257223563,+-1/150,+-0.01,+-0.02,+-0.05,+-0.1,+-0.2}, (a=1,f=1/150), (a=1e9,f=-1/150); exact mode only: f=+-0.3, +-0.5, 0.75, -1, (a=1e-3,f=0.05) (24)"
+  ctx.bound("ellipsoids", T ? "a=6378137 x f in {0,+-1/298.257223563,+-1/150,+-0.01,+-0.02,+-0.05,+-0.1,+-0.2}, (a=1,f=1/150), (a=1e9,f=-1/150); +-0.005, (a=6371000,f=0); exact mode only: f=0.15, +-0.3, +-0.4, +-0.5, 0.6, -0.75, -1, (a=1e-3,f=0.05) (31)"
                             : "WGS84, sphere, f=-0.01, f=0.2, (a=1,f=1/150); f=-0.5 exact mode only (6)");
   ctx.bound("modes", "Rhumb(a,f,exact=false) and Rhumb(a,f,exact=true) on every ellipsoid (series skipped on the exact-only ellipsoids)");
-  ctx.bound("inverse.lat1 x lat2", fmti((long long)LATS.size()) + " x " + fmti((long long)LATS.size()) + " latitudes incl. both poles, +-89.9999, 0, +-1e-9, 30, 30+1e-9, 30+1e-6" + (T ? "; thorough: +-89.9, +-60, +-45, +-30, 5, 1e-3, 5e-324, 1e-15, 1e-12, 1e-6 and nearly equal pairs b+d, b in {30,-45,60,89.9}, d in {1 ulp..4e-14, 1e-12, 1e-9, 1e-6, 1e-3} deg" : ""));
+  ctx.bound("inverse.lat1 x lat2", fmti((long long)LATS.size()) + " x " + fmti((long long)LATS.size()) + " latitudes incl. both poles, +-89.9999, 0, +-1e-9, 30, 30+1e-9, 30+1e-6" + (T ? "; thorough: +-89.99, +-89.9, 85, +-75, +-60, +-45, +-30, 15, +-5, +-0.1, 1e-3, 5e-324, 1e-15, 1e-12, 1e-6 and nearly equal pairs b+d, b in {30,-45,60,89.9}, d in {1 ulp..4e-14, 1e-12, 1e-9, 1e-6, 1e-3} deg" : ""));
   ctx.bound("inverse.lon", fmti((long long)LON1.size()) + " lon1 x " + fmti((long long)LON12.size()) + " lon2-lon1 incl. 0, 1e-9, 179.999, +180, -180 (ties), 181 (long way round)");
   ctx.bound("direct.lat1", fmti((long long)LATS_D.size()) + " start latitudes");
-  ctx.bound("direct.azi12", fmti((long long)AZIS.size()) + " azimuths incl. 0, 1e-10, 90-1e-10, 90, 90+1e-10, 180, 270" + (T ? "; thorough: +-1e-10, 1e-5, 1, 180+-1e-10, 90+-1e-13, 90+-1e-6, 89, 89.999, 91, 270-1e-10, -90+1e-10, -135, 450" : ""));
+  ctx.bound("direct.azi12", fmti((long long)AZIS.size()) + " azimuths incl. 0, 1e-10, 90-1e-10, 90, 90+1e-10, 180, 270" + (T ? "; thorough: +-1e-10, 1e-5, 1e-3, 1, 30, 60, 120, 150, 210, 300, 89.9999999, 180+-1e-10, 90+-1e-13, 90+-1e-6, 89, 89.999, 91, 270-1e-10, -90+1e-10, -135, 450" : ""));
   ctx.bound("direct.s12", fmti((long long)S12S.size()) + " fixed distances 0..+-3e7 m (to, through and several times round the pole) + 2 distances ending 2^-30 (relative) before/after the pole on every oblique/meridional course" + (T ? " + the distance to the pole rounded to double and one ulp either side" : ""));
   ctx.bound("direct.forms", fmti((long long)DLON1.size()) + " lon1 x LONG_UNROLL {0,1} x {Rhumb::GenDirect, Rhumb::Line + RhumbLine::GenPosition}");
 
